@@ -34,6 +34,17 @@ func sizeToken(form, lo, hi string, spaced bool) string {
 }
 
 // sizeTokenPad writes the bounds with pad leading zeros (a bound is a decimal number: [010] is ten).
+// innerSpacers: what may stand between the brackets, the numbers and the dots of a declaration.
+var innerSpacers = []string{" ", "\t", "\n", "\r\n", "\r", " \r\n ", "\n\n", "  "}
+
+func sizeTokenStyled(form, lo, hi string, style, pad int) string {
+	if style%4 != 1 {
+		return sizeTokenPad(form, lo, hi, false, pad)
+	}
+	t := sizeTokenPad(form, lo, hi, true, pad)
+	return strings.ReplaceAll(t, " ", innerSpacers[(style/4)%len(innerSpacers)])
+}
+
 func sizeTokenPad(form, lo, hi string, spaced bool, pad int) string {
 	if pad > 0 {
 		z := strings.Repeat("0", pad)
@@ -110,7 +121,7 @@ func c15Literal(c *ctx, cs c15Case) {
 		pad = 1 + cs.Style%2
 		c.Class("zero-padded-bounds")
 	}
-	decl := smltext.B(sizeTokenPad(cs.Form, cs.Lo, cs.Hi, cs.Style%4 == 1, pad))
+	decl := smltext.B(sizeTokenStyled(cs.Form, cs.Lo, cs.Hi, cs.Style, pad))
 	toks := []smltext.Tok{smltext.KW("S1F1", smltext.Header), smltext.KW("H->E", smltext.Header)}
 	declIdx := len(toks) + 2
 	toks = append(toks, body[0], body[1], decl)
@@ -189,7 +200,7 @@ func c15ASCIIVar(c *ctx, cs c15Case) {
 		pad = 1 + cs.Style%2
 		c.Class("zero-padded-bounds")
 	}
-	decl := sizeTokenPad(cs.Form, cs.Lo, cs.Hi, cs.Style%4 == 1, pad)
+	decl := sizeTokenStyled(cs.Form, cs.Lo, cs.Hi, cs.Style, pad)
 	text := "S2F3 W H<-E\n<L[2]\n  <A" + decl + " TEXT>\n  <U1 1>\n>\n."
 	if cs.Style%2 == 1 {
 		text = "S2F3 W H<-E <A " + decl + " TEXT> ."
